@@ -128,6 +128,11 @@ func validateNumberRange(fv float64, nr *numberRange) error {
 		return nil
 	}
 
+	// NaN 与任何边界比较都为 false，不单独拒绝的话它能通过所有区间
+	if math.IsNaN(fv) {
+		return errNumberRange
+	}
+
 	if (nr.leftInclude && fv < nr.left) || (!nr.leftInclude && fv <= nr.left) {
 		return errNumberRange
 	}
